@@ -12,8 +12,19 @@
     raw <s>*                       -> usage | req <lun> <netfn> <hex> | raise <Exc>
     hex <hexbytes>                 -> <str>           (what `raw` prints for these reply bytes)
     unhex <s>                      -> ok <hexbytes> | none       (Spec.parseHex)
-    exit cc <n> | exit timeout | exit kbd | exit ok | exit py <Name>
+    exit cc <n> | exit timeout | exit kbd | exit ok | exit py <Name> | exit err <Class|socket.timeout> <repr s> <str s>
                                    -> none | some <status> <str>
+    mainend <exc> <exc>            -> returns | exits <status> <str> | raises <Name> <str>|~
+                                      (what ipmi.open()/the handler raised, what ipmi.close() raised;
+                                       <exc> = - | cc:<n> | lib:<Class>:<repr s>:<str s> | sock:<repr s>:<str s> | kbd | py:<Name>)
+    probe                          -> closeInside=<0|1> escaping=<Class,…|-> int10=<entry:arg,…|-> optint10=<letter codes|->
+                                      link=<0|1> idstr=<0|1> entity=<0|1> catch=<cmd s>:<Name+…>;…
+                                      (the executable hypotheses of the Props theorems, on today's source)
+    argconvs <idx>                 -> k:0 | k:10 …  ( - if none)
+    linraises <code> <neg|zero|pos>      -> none | <Name>
+    cell <cmd s> <code> <neg|zero|pos>   -> none | <Name>     (with today's handlers)
+    sdrshow <type>                 -> none | <Name>           (today's handlers, today's sdr.py classes)
+    linkstate <0|1>                -> none | <Name>
     entry <idx> | ientry <idx>     -> ok | AttributeError <ref> | TypeError <ref>   (shipped table | intended table)
     unresolved                     -> i:j i:j …  ( - if none)
     chassis <word>                 -> none | some <code>   (table entry "chassis power <word>" -> method -> option)
@@ -71,6 +82,46 @@ def chassisCode (word : String) : Option Nat := do
   match c.refs with
   | [r] => (Gen.Cli.chassisControl.find? (fun e => e.1 == r.name)).map (·.2)
   | _ => none
+
+def optName (o : Option String) : String := match o with | some n => n | none => "none"
+
+def parseSign (t : String) : Option Sign :=
+  if t == "neg" then some .neg else if t == "zero" then some .zero else if t == "pos" then some .pos else none
+
+/-- `-` | `cc:<n>` | `lib:<Class>:<repr>:<str>` | `sock:<repr>:<str>` | `kbd` | `py:<Name>` -/
+def parseExc (t : String) : Option (Option (Raised × ExcInfo)) :=
+  match t.splitOn ":" with
+  | ["-"] => some none
+  | ["cc", n] => n.toNat?.map fun c => some (.lib .completionCodeError, { cc := c })
+  | ["lib", c, r, s] =>
+    match LibErr.ofName c, parseStr r, parseStr s with
+    | some c, some r, some s => some (some (.lib c, { repr := r, str := s }))
+    | _, _, _ => none
+  | ["sock", r, s] =>
+    match parseStr r, parseStr s with
+    | some r, some s => some (some (.socketTimeout, { repr := r, str := s }))
+    | _, _ => none
+  | ["kbd"] => some (some (.keyboardInterrupt, {}))
+  | ["py", n] => some (some (.other n, {}))
+  | _ => none
+
+def showEnding : Ending → String
+  | .returns => "returns"
+  | .exits st m => s!"exits {st} {showStr m}"
+  | .raises e none => s!"raises {e.name} ~"
+  | .raises e (some m) => s!"raises {e.name} {showStr m}"
+
+def commaOr (l : List String) : String := if l.isEmpty then "-" else ",".intercalate l
+
+def probe : String :=
+  let b (x : Bool) : String := if x then "1" else "0"
+  let h := Gen.Cli.handlers
+  s!"closeInside={b Gen.Cli.shape.closeInside} escaping={commaOr ((escaping Gen.Cli.exits).map Raised.name)} " ++
+  s!"int10={commaOr ((base10Args Gen.Cli.argConvs).map fun (e, k) => s!"{e}:{k}")} " ++
+  s!"optint10={commaOr ((base10Opts Gen.Cli.shape.rules).map toString)} " ++
+  s!"link={b h.linkNoneGuard} idstr={b h.idStringGuard} entity={b h.entityGuard} " ++
+  "catch=" ++ (if h.convCatch.isEmpty then "-" else
+    ";".intercalate (h.convCatch.map fun (c, l) => showStr (ofString c) ++ ":" ++ (if l.isEmpty then "-" else "+".intercalate l)))
 
 def selftest : String :=
   if Gen.Cli.shape.defaults.length != Gen.Cli.vars.length then "defaults/vars length"
@@ -130,20 +181,52 @@ def handle (line : String) : String :=
     match parseStr s with
     | some s => (match Spec.Cli.parseHex s with | some bs => "ok " ++ toHex bs | none => "none")
     | none => "bad-op"
+  | ["exit", "ok"] => "none"
   | "exit" :: rest =>
-    let o : Option (Outcome Unit) := match rest with
-      | ["cc", n] => n.toNat?.map .ccError
-      | ["timeout"] => some .timeoutError
-      | ["kbd"] => some (.pyError "KeyboardInterrupt")
-      | ["ok"] => some (.ok ())
-      | ["py", n] => some (.pyError n)
+    let o : Option (Raised × ExcInfo) := match rest with
+      | ["cc", n] => n.toNat?.map fun c => (.lib .completionCodeError, { cc := c })
+      | ["timeout"] => some (.lib .ipmiTimeoutError, {})
+      | ["kbd"] => some (.keyboardInterrupt, {})
+      | ["py", n] => some (.other n, {})
+      | ["err", c, r, s] =>
+        match parseStr r, parseStr s with
+        | some r, some s =>
+          if c == "socket.timeout" then some (.socketTimeout, { repr := r, str := s })
+          else (LibErr.ofName c).map fun c => (.lib c, { repr := r, str := s })
+        | _, _ => none
       | _ => none
     match o with
     | none => "bad-op"
-    | some o =>
-      match exitOf Gen.Cli.exits o with
+    | some (e, i) =>
+      match exitOf Gen.Cli.exits e i with
       | none => "none"
       | some r => s!"some {r.status} {showStr r.message}"
+  | ["mainend", b, c] =>
+    match parseExc b, parseExc c with
+    | some b, some c => showEnding (mainEnd Gen.Cli.shape.closeInside Gen.Cli.exits b c)
+    | _, _ => "bad-op"
+  | ["probe"] => probe
+  | ["argconvs", i] =>
+    match i.toNat? with
+    | none => "bad-op"
+    | some i =>
+      let l := Gen.Cli.argConvs.filter (·.entry == i)
+      if l.isEmpty then "-" else " ".intercalate (l.map fun c => s!"{c.arg}:{if c.base0 then 0 else 10}")
+  | ["linraises", c, sg] =>
+    match c.toNat?, parseSign sg with
+    | some c, some sg => optName (linRaises c sg)
+    | _, _ => "bad-op"
+  | ["cell", cmd, c, sg] =>
+    match parseStr cmd, c.toNat?, parseSign sg with
+    | some cmd, some c, some sg => optName (cellRaises (catchOf Gen.Cli.handlers (toStr cmd)) c sg)
+    | _, _, _ => "bad-op"
+  | ["sdrshow", t] =>
+    match t.toNat? with
+    | some t =>
+      let a := sdrAttrs Gen.Cli.sdrClasses Gen.Cli.sdrDefault t
+      optName (sdrShowRaises Gen.Cli.handlers a.1 a.2)
+    | none => "bad-op"
+  | ["linkstate", x] => optName (linkStateRaises Gen.Cli.handlers (x == "1"))
   | ["entry", i] =>
     match i.toNat? with
     | some i => entryRes Gen.Cli.commands i
